@@ -181,6 +181,9 @@ impl<'a, 'tcx> M<'a, 'tcx> {
                 if let ty::Closure(cdid, _) = t.kind() {
                     closures.push(J::s(self.cx.path(*cdid)));
                 }
+                if let ty::Coroutine(cdid, _) = t.kind() {
+                    closures.push(J::s(self.cx.path(*cdid)));
+                }
             }
         }
         v.push(("closures", J::Arr(closures)));
